@@ -18,7 +18,7 @@ SPEC = {
          'n': {'quick': 160, 'thorough': 4000}},
     ],
     'known': {'2': 'F13e'},
-    'rule': 'DONs of 4..10 oracles (ids from 0..15), 1..3 source chains + destination, per-chain f in 1..3 (class weird-f: '
+    'rule': 'half of the groups use production-sized chain selectors (mainnet, BSC, Base, .., 2^63, 2^64-1: pairwise more than 2^63 apart or cyclic modulo 2^64); Byzantine class token-long-list: more than 256 token-data slots for one message with slot k = slot k+256 (an 8-bit slot index would double-count one observer); DONs of 4..10 oracles (ids from 0..15), 1..3 source chains + destination, per-chain f in 1..3 (class weird-f: '
             '0, -1, -2, destination missing), F in 1..3 (class below-F: above the number of observations); an agreed world '
             '(1..3 commit reports per chain, 1..3 messages each, 0..2 token slots, costly ids, sender nonces) where every '
             'item is reported by thr-1, thr, thr+1, all or a random number of oracles; then 1, 2, thr-1 or thr colluding '
